@@ -101,6 +101,10 @@ def check(run):
     loadfam.replay_load(run, cases, "Trace_Keys", "Trace_Keys.cfg", build_features=("json", "suppress"),
                         variant="json-suppress", key_of=lambda c, r: "suppress;" + _key(c, r), tag="_suppress",
                         trace_env={"SUPPRESS": "1"})
+    import random as _r
+    sample = cases if len(cases) <= 800 else _r.Random(run.seed).sample(cases, 800)
+    loadfam.replay_load(run, loadfam.namespaced(sample), "Trace_Keys", "Trace_Keys.cfg", key_of=lambda c, r: "namespaced;" + _key(c, r), tag="_ns",
+                        trace_env={"SUPPRESS": "0", "NS": "n1"})
     # only projects that load (no group / value clash) can be compiled
     run.notes["l2_compile_events"] = run_l2(run, [c for c in cases if _loads(c)], 6 if run.tier == "quick" else 40)
     run.exhaustive = True
